@@ -212,8 +212,9 @@ FrameClass(B) ==
            blen == U32Val(Ord(Slice(B, 5, 4), le))
            flen == U32Val(Ord(Slice(B, 13, 4), le))
            boff == 16 + flen + Pad(16 + flen, 8)
-       IN IF flen > MaxFieldsLen \/ blen > MaxMsgLen THEN "oversize"
-          ELSE IF Len(B) < boff THEN "shorter-than-body-offset"
+       IN IF flen > MaxFieldsLen THEN "oversize"
+          ELSE IF Len(B) < boff THEN "shorter-than-body-offset"       \* whatever the body length says
+          ELSE IF blen > MaxMsgLen THEN "oversize"
           ELSE IF Len(B) < boff + blen THEN "short-body"
           ELSE IF Len(B) > boff + blen THEN "trailing-bytes"
           ELSE "framed"
